@@ -1,6 +1,8 @@
 (* TSPEnv (rl4co/envs/routing/tsp/env.py, class TSPEnv), one batch row, bookkeeping variable by variable,
    plus the batched wrapper that contains the batch-global first-step test of _step literally.
-   Nodes are 0..n-1 (no depot).  Distances are instance data (scaled integers). *)
+   Nodes are 0..n-1 (no depot).  Distances are instance data (scaled integers).
+   DenseRewardTSPEnv._step repeats the same bookkeeping (its additional stepwise reward is not modelled); the
+   correspondence ties it to this model as a variant. *)
 From Coq Require Import ZArith List Bool Lia ZifyBool Arith.
 From RL4CO Require Import Base.Num Base.EnvSig Base.SortNat Env.TourCore.
 Import ListNotations.
